@@ -57,6 +57,8 @@ class Gen:
             if r.random() < 0.6:
                 self._declare("g", ("U", "U"), "U")
             self._declare("P", ("U",), BOOL)
+            if r.random() < 0.35:
+                self._declare("bf", (BOOL,), "U")      # Boolean formulas nested in arguments of uninterpreted functions
             if self.num and not self.dl:
                 self._declare("h", (self.num,), self.num)
                 if r.random() < 0.5:
@@ -156,6 +158,10 @@ class Gen:
             return tb.uf("g", [self.u_term(depth - 1), self.u_term(depth - 1)], "U")
         if x < 0.8 and "k" in self.funs:
             return tb.uf("k", [self.num_term(0)], "U")
+        if x < 0.86 and "bf" in self.funs:
+            b = r.choice(self.bools)
+            arg = r.choice([b, tb.boolc(r.random() < 0.5), tb.app(r.choice(["and", "or"]), [b, r.choice(self.bools)]), tb.app("not", [b])])
+            return tb.uf("bf", [arg], "U")
         if x < 0.9:
             if depth >= 2 and r.random() < 0.5:
                 v, w = self.u_term(0), self.u_term(depth - 2)
